@@ -79,67 +79,80 @@ type mutantResult struct {
 	Seconds  float64  `json:"seconds"`
 }
 
-// runMutants applies every /verif/mutants/<prop>-*.patch to a scratch copy of
-// the repository and checks that the property's obligations then fail.
+// runMutants applies every /verif/mutants/<prop>-*.patch and every
+// /verif/seeded/<prop>/*/patch.diff (changes written by independent agents
+// that saw only the property text) to a scratch copy of the repository and
+// checks that the property's obligations then fail.
 func runMutants(eng *Engine, prop, verif string, known map[string]KnownFinding) []mutantResult {
 	files, _ := filepath.Glob(filepath.Join(verif, "mutants", prop+"-*.patch"))
+	seeded, _ := filepath.Glob(filepath.Join(verif, "seeded", prop, "*", "patch.diff"))
 	sort.Strings(files)
+	sort.Strings(seeded)
+	files = append(files, seeded...)
 	var out []mutantResult
 	for _, pf := range files {
-		start := time.Now()
-		mr := mutantResult{Mutant: filepath.Base(pf)}
-		func() {
-			scratch, err := os.MkdirTemp("", "govc-mutant-")
-			if err != nil {
-				mr.Error = err.Error()
-				return
-			}
-			defer os.RemoveAll(scratch)
-			srcs, _ := filepath.Glob(filepath.Join(eng.repo, "*.go"))
-			srcs = append(srcs, filepath.Join(eng.repo, "go.mod"), filepath.Join(eng.repo, "go.sum"))
-			for _, f := range srcs {
-				b, err := os.ReadFile(f)
-				if err == nil {
-					os.WriteFile(filepath.Join(scratch, filepath.Base(f)), b, 0o644)
-				}
-			}
-			cmd := exec.Command("patch", "-p1", "-s", "-i", pf)
-			cmd.Dir = scratch
-			if o, err := cmd.CombinedOutput(); err != nil {
-				mr.Error = "patch does not apply (the code it mutates has changed): " + firstLine(string(o))
-				return
-			}
-			meng, err := loadEngine(scratch)
-			if err != nil {
-				mr.Error = "mutant does not load: " + firstLine(err.Error())
-				return
-			}
-			work, _ := os.MkdirTemp("", "govc-mutant-work-")
-			defer os.RemoveAll(work)
-			rs, _, errs := verifyProp(meng, prop, solveOpts{workDir: work, quickS: 4, fullS: 6, parallel: (runtime.NumCPU() + 1) / 2})
-			for _, r := range rs {
-				if r.Obl.Kind == "cover" {
-					continue
-				}
-				if r.Status != "unsat" {
-					if _, ok := known[oblID(r.Obl)]; ok {
-						continue
-					}
-					mr.Failed = append(mr.Failed, oblID(r.Obl))
-				}
-			}
-			if len(errs) > 0 {
-				mr.Failed = append(mr.Failed, "engine: "+firstLine(errs[0]))
-			}
-			mr.Detected = len(mr.Failed) > 0
-		}()
-		mr.Seconds = time.Since(start).Seconds()
-		if len(mr.Failed) > 6 {
-			mr.Failed = append(mr.Failed[:6], fmt.Sprintf("... and %d more", len(mr.Failed)-6))
+		mr := applyMutant(eng, prop, pf, known)
+		if rel, err := filepath.Rel(verif, pf); err == nil {
+			mr.Mutant = rel
 		}
 		out = append(out, mr)
 	}
 	return out
+}
+
+func applyMutant(eng *Engine, prop, pf string, known map[string]KnownFinding) mutantResult {
+	start := time.Now()
+	mr := mutantResult{Mutant: filepath.Base(pf)}
+	func() {
+		scratch, err := os.MkdirTemp("", "govc-mutant-")
+		if err != nil {
+			mr.Error = err.Error()
+			return
+		}
+		defer os.RemoveAll(scratch)
+		srcs, _ := filepath.Glob(filepath.Join(eng.repo, "*.go"))
+		srcs = append(srcs, filepath.Join(eng.repo, "go.mod"), filepath.Join(eng.repo, "go.sum"))
+		for _, f := range srcs {
+			b, err := os.ReadFile(f)
+			if err == nil {
+				os.WriteFile(filepath.Join(scratch, filepath.Base(f)), b, 0o644)
+			}
+		}
+		cmd := exec.Command("patch", "-p1", "-s", "-i", pf)
+		cmd.Dir = scratch
+		if o, err := cmd.CombinedOutput(); err != nil {
+			mr.Error = "patch does not apply (the code it mutates has changed): " + firstLine(string(o))
+			return
+		}
+		meng, err := loadEngine(scratch)
+		if err != nil {
+			mr.Error = "mutant does not load: " + firstLine(err.Error())
+			return
+		}
+		work, _ := os.MkdirTemp("", "govc-mutant-work-")
+		defer os.RemoveAll(work)
+		rs, _, errs := verifyProp(meng, prop, solveOpts{workDir: work, quickS: 5, fullS: 12, parallel: (runtime.NumCPU() + 1) / 2})
+		for _, r := range rs {
+			if r.Obl.Kind == "cover" {
+				continue
+			}
+			if r.Status != "unsat" {
+				if _, ok := known[oblID(r.Obl)]; ok {
+					continue
+				}
+				mr.Failed = append(mr.Failed, oblID(r.Obl))
+			}
+		}
+		if len(errs) > 0 {
+			mr.Failed = append(mr.Failed, "engine: "+firstLine(errs[0]))
+		}
+		mr.Detected = len(mr.Failed) > 0
+	}()
+	mr.Seconds = time.Since(start).Seconds()
+	if len(mr.Failed) > 6 {
+		mr.Failed = append(mr.Failed[:6], fmt.Sprintf("... and %d more", len(mr.Failed)-6))
+	}
+	return mr
 }
 
 func runCheck(eng *Engine, prop, tier, verif string, loadS float64, start time.Time) int {
@@ -193,9 +206,13 @@ func runCheck(eng *Engine, prop, tier, verif string, loadS float64, start time.T
 	if len(eng.immutable) > 0 {
 		vcs = append(vcs, eng.immutabilityObligations())
 	}
-	opts := solveOpts{workDir: work, quickS: 4, fullS: 12, parallel: (runtime.NumCPU() + 1) / 2}
+	// CPU seconds per solver process (see solve.go).  The last stage is long
+	// on purpose: it is only reached by obligations that are about to be
+	// reported as violations, and a loaded machine must not turn a proof
+	// that needs a few CPU seconds into an alarm.
+	opts := solveOpts{workDir: work, quickS: 6, fullS: 40, parallel: (runtime.NumCPU() + 1) / 2}
 	if tier == "thorough" {
-		opts.quickS, opts.fullS = 10, 60
+		opts.quickS, opts.fullS = 10, 120
 	}
 	known := loadKnown(verif)
 	knownIdx := map[string]KnownFinding{}
@@ -332,6 +349,36 @@ func runCheck(eng *Engine, prop, tier, verif string, loadS float64, start time.T
 			assumed[a] = true
 		}
 	}
+	// the slowest discharged obligations (fragility indicator)
+	var slow []*Result
+	for _, r := range results {
+		if r.Obl.Kind != "cover" && r.Status == "unsat" {
+			slow = append(slow, r)
+		}
+	}
+	sort.SliceStable(slow, func(i, j int) bool { return slow[i].Ms > slow[j].Ms })
+	var slowest []map[string]interface{}
+	for i, r := range slow {
+		if i >= 8 {
+			break
+		}
+		slowest = append(slowest, map[string]interface{}{"obligation": oblID(r.Obl), "ms": r.Ms, "backend": r.Backend})
+	}
+	// callee contracts this property's proofs rely on, and how each is backed
+	relied := map[string]bool{}
+	for _, vc := range vcs {
+		for k := range vc.relied {
+			relied[k] = true
+		}
+	}
+	var reliedL []string
+	for _, k := range sortedKeys(relied) {
+		st := eng.contractBacking(k)
+		reliedL = append(reliedL, k+": "+st)
+		if strings.HasPrefix(st, "ASSUMED") {
+			assumed["callee contract "+k+": "+st] = true
+		}
+	}
 	var bvRules []string
 	for r := range eng.bvCerts {
 		bvRules = append(bvRules, r)
@@ -371,10 +418,12 @@ func runCheck(eng *Engine, prop, tier, verif string, loadS float64, start time.T
 			"functions_proved":         provedL,
 			"interface_contracts":      ifaceOnly,
 			"trusted_contracts":        trusted,
+			"callee_contracts_relied_on": reliedL,
 			"lemmas":                   lemmas,
 			"by_backend":               byBackend,
 			"solver_time_s":            float64(solverMs) / 1000.0,
 			"samples":                  samples,
+			"slowest_obligations":      slowest,
 			"vacuity":                  map[string]int{"covers": nCover, "covers_satisfiable_or_unrefuted": nCoverOK},
 			"abstracted":               sortedKeys(abstr),
 			"bit_rewrite_rules_used":   bvRules,
@@ -423,4 +472,60 @@ func writeReplay(eng *Engine, verif, prop string, r *Result, path string) string
 	b, _ := json.MarshalIndent(rep, "", " ")
 	os.WriteFile(path, append(b, '\n'), 0o644)
 	return suffix
+}
+
+// contractBacking says how a contract applied at call sites is itself
+// backed: proved by the check of some property, trusted, external, or (for
+// thin contracts) which parts are assumed.
+func (e *Engine) contractBacking(k string) string {
+	c := e.cf.Contracts[k]
+	if c == nil {
+		return "no contract"
+	}
+	if c.Trusted {
+		return "ASSUMED (trusted contract: " + c.Attrs["trusted"] + ")"
+	}
+	fn := e.fnByKey[k]
+	if fn == nil || len(fn.Blocks) == 0 {
+		return "ASSUMED (contract on an interface method, callback or external function: no body to verify)"
+	}
+	if len(c.Props) == 0 {
+		return "ASSUMED (no property check verifies this contract)"
+	}
+	by := "verified by the check(s) of " + strings.Join(c.Props, ",")
+	var notProved []string
+	kinds := c.Attrs["obligations"]
+	labels := c.Attrs["only-labels"]
+	ensuresKept := kinds == "" || strings.Contains(" "+kinds+" ", " ensures ")
+	for i, en := range c.Ensures {
+		nm := clauseName("ensures", i, en)
+		switch {
+		case strings.HasPrefix(en.Label, "assume_"):
+			notProved = append(notProved, nm)
+		case !ensuresKept:
+			notProved = append(notProved, nm)
+		case labels != "":
+			keep := false
+			for _, l := range strings.Fields(labels) {
+				if en.Label == l {
+					keep = true
+				}
+			}
+			if !keep {
+				notProved = append(notProved, nm)
+			}
+		}
+	}
+	frameKept := (kinds == "" || strings.Contains(" "+kinds+" ", " frame ")) && labels == ""
+	if len(notProved) == 0 && frameKept {
+		return by
+	}
+	s := "ASSUMED in part (thin contract, " + by + "): not proved:"
+	if len(notProved) > 0 {
+		s += " " + strings.Join(notProved, ", ")
+	}
+	if !frameKept {
+		s += " and the modifies frame"
+	}
+	return s
 }
